@@ -209,6 +209,20 @@ func RunC02(c *Ctx, r *Report) {
 			}
 		}
 	}
+	// before the checksum is verified the datagram has already been through ParseHeader and the walker of the
+	// outer payload chain, which dispatches to whatever payload decoder the (unauthenticated) type octets
+	// name: every decoder reachable from DecodeDecrypt is part of "a tampered or truncated message is
+	// refused" (refused = an error, not a crash)
+	inScope := map[*ssa.Function]bool{}
+	for _, fn := range scope {
+		inScope[fn] = true
+	}
+	for _, fn := range c.Reachable(a.DecodeDecrypt) {
+		if !inScope[fn] {
+			inScope[fn] = true
+			scope = append(scope, fn)
+		}
+	}
 	e := &E2{C: c, R: r, Prefix: prefix + "nocrash.", Strict: true}
 	e.Setup = c.setupDecodeFA(r, prefix+"nocrash.")
 	e.NonNil = c.lemmaEncryptedPayload(r, prefix+"nocrash.")
